@@ -887,8 +887,9 @@ fn parse_zone(
                 })
             }
         },
-        5 => match string.chars().nth(4) {
-            Some(char) if char.is_ascii_digit() => {
+        // Seconds are only present if the minutes (":mm") are followed by another ":" and a digit
+        5 => match (string.chars().nth(3), string.chars().nth(4)) {
+            (Some(':'), Some(char)) if char.is_ascii_digit() => {
                 // Using unwrap because it's safe to assume that the string is long enough
                 remove_part(1, string).unwrap();
                 let minute = pick_part::<u32>(2, string, "timezone minute")?;
